@@ -79,14 +79,23 @@ def _quant(eng, e, st, kind):
             binds[n] = SV(c, None)
         consts.append(c)
     env = Env(binds, st.env)
-    s = State(env, st.heap, st.pc, st.old, st.ghost)
+    n0 = len(st.pc)
+    s = State(env, st.heap, st.pc, st.old, dict(st.ghost))
     (body, s2), = eng.ev(lam.body, s)
     b = eng.truth(s2, body)
-    extra = s2.pc[len(st.pc):]
+    extra = list(st.pc[n0:])
     if extra:
-        # definitions introduced inside the quantifier body may mention the bound variable
-        b = z3.Implies(z3.And(extra), b) if kind.startswith("forall") else z3.And(z3.And(extra), b)
-        del s2.pc[len(st.pc):]
+        # facts introduced while evaluating the body (representation invariants of the objects touched,
+        # definitions of fresh arrays) hold for every value of the bound variables: they are hoisted as
+        # universally quantified assumptions, whatever the polarity of the quantifier itself
+        del st.pc[n0:]
+        from z3.z3util import get_vars
+        ids = {c.get_id() for c in consts}
+        for f in extra:
+            if any(v.get_id() in ids for v in get_vars(f)):
+                st.pc.append(z3.ForAll(consts, f))
+            else:
+                st.pc.append(f)
     q = z3.ForAll if kind.startswith("forall") else z3.Exists
     return [(sv_bool(q(consts, b)), st)]
 
@@ -289,7 +298,11 @@ def apply_contract(eng, c, fi, b, s, label):
         bad, normal = eng.branch(normal, flag)
         if bad is not None:
             if c.modifies:
+                old_b = State(bad.env, bad.heap, bad.pc, None, dict(bad.ghost))
                 havoc_for_call(eng, c, b, bad, spec_st, label)
+                post_b = State(bad.env, bad.heap, bad.pc, old_b, bad.ghost)
+                for e in c.opts.get("ensures_on_raise", []):
+                    bad.assume(spec_bool(eng, ast.parse(e.strip(), mode="eval").body, post_b, b))
             eng.raise_exc(bad, cls)
     if normal is None:
         return []
